@@ -339,6 +339,18 @@ def rel_ok(tpl):
     return len(tpl) <= 255 and ' '.join(tpl.split()) == tpl and tpl != ''
 
 
+def state_of(e):
+    """The event as its API shows it and, for the XML-backed representations, as the element a writer gets holds it."""
+    from vf.props import c07
+    view = {'api': gen.event_view(e)}
+    if hasattr(e, 'get_element'):
+        try:
+            view['xml'] = c07.element_view(e)
+        except Exception as ex:
+            view['xml'] = 'err:' + type(ex).__name__
+    return view
+
+
 def cap(s):
     return s[:1].upper() + s[1:] if s else s
 
@@ -407,7 +419,7 @@ class C16(Property):
         relation = et['s'].relate_to('related to', 't', reason=tpl) if rel_ok(tpl) else None
         for ev in case['events']:
             e = gen.build_event(ev, case['rep'])
-            before = gen.event_view(e)
+            before = state_of(e)
             order = {k: [str(x) for x in v] for k, v in e.get_properties().items()}
             for k in list(order):
                 if PROPS[k][0].startswith('number:float'):
@@ -429,9 +441,9 @@ class C16(Property):
                 outs.append(relation.evaluate_description(e.get_properties(), capitalize=False) if relation is not None else 'n/a')
             except Exception as ex:
                 outs.append('raised:' + type(ex).__name__)
-            after = gen.event_view(e)
+            after = state_of(e)
             evals.append({'outs': outs, 'unchanged': before == after, 'order': order,
-                          'changed': None if before == after else [before['props'], after['props']]})
+                          'changed': None if before == after else [before, after]})
         return {'template': tpl, 'verdict': verdict, 'evals': evals}
 
     # -- model
